@@ -24,6 +24,7 @@ EXTENDS Naturals, Sequences, FiniteSets, TLC
 CONSTANTS
   NodeRecs,   \* set of [id, parent, kind, pkg, letter]; kind \in {"env","root","flag","pkg","iface","entry"}
   Decl,       \* [Go package -> set of interface letters declared there]
+  Tagged,     \* [Go package -> [letter -> build tag]]: declarations in a file with a //go:build line (a marker names the tag)
   Subs        \* [configured package -> set of Go packages nested below it in the directory tree]
 
 NodeIds    == {r.id : r \in NodeRecs}
@@ -49,7 +50,7 @@ OnChain(n) == {Chain(n)[i] : i \in 1..Len(Chain(n))}
 PerMock    == {"dir", "filename", "pkgname", "structname", "template-data", "replace-type"}
 PerFile    == {"template", "template-schema", "require-template-schema-exists", "formatter", "force-file-write"}
 PerPackage == {"all", "include-interface-regex", "exclude-interface-regex", "recursive", "exclude-subpkg-regex"}
-TopOnly    == {"log-level"}
+TopOnly    == {"log-level", "build-tags"}
 MapParams  == {"template-data", "replace-type"}
 
 DEFAULT == "<default>"      \* templated defaults (dir, filename, pkgname, structname, template-schema) stay symbolic
@@ -126,6 +127,9 @@ ExclList(cfg, p) == EffScalar(cfg, "exclude-subpkg-regex", p)
 Excluded(cfg, p, s) == \E i \in 1..Len(ExclList(cfg, p)) : ExclList(cfg, p)[i] = s
 Discovered(cfg, p, s) == EffScalar(cfg, "recursive", p) /\ ~Excluded(cfg, p, s)
 
+\* declarations visible under the effective build-tags (a top-level parameter: env < file)
+DeclNow(cfg, g) == {L \in Decl[g] : L \notin DOMAIN Tagged[g] \/ Tagged[g][L] = EffScalar(cfg, "build-tags", "flag")}
+
 \* A mock: source package, interface letter, and the most specific level of its chain (`from`).
 \*   listed interface with configs entries  -> one mock per entry
 \*   listed interface without entries        -> one mock, from the interface level
@@ -140,11 +144,11 @@ ConfiguredMocks(cfg, p) ==
           ELSE IF Selected(cfg, p, L, FALSE)
                THEN {[pkg |-> p, letter |-> L, from |-> p, how |-> "unlisted"]}
                ELSE {}
-        : L \in Decl[p] }
+        : L \in DeclNow(cfg, p) }
 
 DiscoveredMocks(cfg, p) ==
   UNION { IF Discovered(cfg, p, s)
-          THEN {[pkg |-> s, letter |-> L, from |-> p, how |-> "subpkg"] : L \in {x \in Decl[s] : Selected(cfg, p, x, FALSE)}}
+          THEN {[pkg |-> s, letter |-> L, from |-> p, how |-> "subpkg"] : L \in {x \in DeclNow(cfg, s) : Selected(cfg, p, x, FALSE)}}
           ELSE {}
         : s \in Subs[p] \ Configured }
 
